@@ -241,6 +241,32 @@ def real_histories(run, rng, tier, viol):
                     run.evaluations += 1
                     if not lt(out, oa, ob):
                         viol("real_git_histories_at_a_final_tag", "adding commits must yield a strictly greater version", {"outputs": [oa, ob], "format": out})
+        # along the first-parent chain of main through criss-cross --no-ff merges: every step adds commits (the last one only merge
+        # commits), so every step must print a strictly greater version
+        base = [("commit", T), ("tag", final), ("branch", "side"), ("commit", T + 10), ("checkout", "main"), ("commit", T + 20)]
+        chain = [base, base + [("merge", "side", T + 30)],
+                 base + [("merge", "side", T + 30), ("checkout", "side"), ("merge", "main", T + 40), ("checkout", "main"), ("merge", "side", T + 50)],
+                 base + [("merge", "side", T + 30), ("checkout", "side"), ("merge", "main", T + 40), ("checkout", "main"), ("merge", "side", T + 50), ("commit", T + 60)]]
+        cpaths = []
+        for k, script in enumerate(chain):
+            pth = os.path.join(root, f"chain{k}")
+            gitfx.build_repo(pth, script)
+            cpaths.append(pth)
+        for out in ("semver", "pep440"):
+            outs = []
+            for pth in cpaths:
+                rc, so, se = run_procs([(["flow", f"--output-format={out}"], None)], env={"TZ": "UTC"}, cwd=pth)[0]
+                outs.append(so.decode("utf-8", "replace").strip() if rc == 0 else None)
+            st["merge_chain_steps"] = len(cpaths)
+            run.evaluations += len(cpaths)
+            if None in outs:
+                viol("real_git_histories_at_a_final_tag", "flow fails along a chain of merges", {"outputs": outs, "format": out})
+            else:
+                for a, b in zip(outs, outs[1:]):
+                    if not lt(out, a, b):
+                        viol("real_git_histories_at_a_final_tag", "adding commits (criss-cross merges on the first-parent chain of main) must yield a strictly greater version",
+                             {"outputs": outs, "format": out, "history": "tag; side: b1; main: a1 | main merges side | side merges main, main merges side | main: a2"})
+                        break
         run.samples.append({"stream": "real_git_histories_at_a_final_tag", "argv": jobs[0][4], "output": results[(jobs[0][2], jobs[0][3], tuple(jobs[0][4]))][1].decode("utf-8", "replace")[:200]})
     finally:
         shutil.rmtree(root, ignore_errors=True)
